@@ -26,6 +26,32 @@ static void verif_install_death_flush(void) {
     }
 }
 
+// --snapshot FILE (any driver that calls verif_snapshot_option): FILE lists "hexaddr size name" of the library's writable symbols in this
+// executable.  They are copied when main starts (static initialisers have run) and compared when the process exits: a library that keeps
+// state between calls in ANY of its entry points - also the C++-only ones the C20 driver never calls - changes one of them.
+static struct { uintptr_t addr; size_t size; char name[200]; uint8_t* copy; } g_snap_sym[512];
+static int g_snap_n;
+static void verif_snapshot_compare(void) {
+    int changed = 0;
+    fflush(stdout);
+    for (int i = 0; i < g_snap_n; i++) if (memcmp(g_snap_sym[i].copy, (void*) g_snap_sym[i].addr, g_snap_sym[i].size) != 0) { fprintf(stderr, "WRITABLE-SYMBOL-CHANGED %s size=%zu\n", g_snap_sym[i].name, g_snap_sym[i].size); changed++; }
+    fflush(stderr);
+    if (changed) _exit(95);
+}
+static void verif_snapshot_option(int argc, char** argv) {
+    for (int i = 1; i + 1 < argc; i++) if (!strcmp(argv[i], "--snapshot")) {
+        FILE* f = fopen(argv[i + 1], "r");
+        if (!f) { fprintf(stderr, "DRIVER-ERROR: cannot open %s\n", argv[i + 1]); exit(3); }
+        unsigned long a, sz; char nm[200];
+        while (g_snap_n < 512 && fscanf(f, "%lx %lu %199s", &a, &sz, nm) == 3) {
+            g_snap_sym[g_snap_n].addr = a; g_snap_sym[g_snap_n].size = sz; strcpy(g_snap_sym[g_snap_n].name, nm);
+            g_snap_sym[g_snap_n].copy = (uint8_t*) malloc(sz); memcpy(g_snap_sym[g_snap_n].copy, (void*) a, sz); g_snap_n++;
+        }
+        fclose(f);
+        atexit(verif_snapshot_compare);
+    }
+}
+
 #define MAXTOK 8192
 #define LINEBUF (1 << 20)
 
